@@ -220,6 +220,33 @@ def run(ck):
                         ck.check("optimizer.step" not in ev[ev.index("scheduler.step"):], "C06.R4", "scheduler advanced after the epoch's optimizer steps [%s]" % path_tag(p), lsite,
                                  "an optimizer step follows scheduler.step() inside the epoch")
             ck.check(bool(sched_paths), "C06.R4", "fit with a scheduler returns", lsite, "no returning path of fit with a scheduler was found")
+    # a continued run (starting_epoch = 3, two epochs left, both enumerated): the epochs' numbering starts at 3, the
+    # scheduler built by this fit starts at its own step 0, and each epoch still advances it exactly once
+    def thr_cont(it):
+        s = make_state(it, "ComplexWaveFunction")
+        data = tens(it, "data", ("N", "nv"))
+        call(it, s, "fit", data, epochs=VConst(4), starting_epoch=VConst(3), lr=VNum("float", T.sym("lr"), pos=True),
+             input_bases=api.bases_arr(it, "input_bases", "N"), scheduler=VExt("torch.optim.lr_scheduler.StepLR"))
+        return s
+
+    with ck.guard("C06.R4", "continued run (starting_epoch=3, epochs=4)", fsite):
+        cps = [p for p in paths_of(prog, thr_cont, max_paths=100, sticky=True, stubs={"NeuralStateBase.compute_batch_gradients": stub_grad_lists}) if p.outcome == "return"]
+        ck.check(bool(cps), "C06.R4", "continued run with a scheduler returns", fsite, "no returning path of fit(starting_epoch=3, epochs=4, scheduler=...) was found")
+        for p in cps:
+            tl = [n_ for _k, n_, _r in p.interp.timeline if n_ in ("scheduler.step", "CallbackList.on_epoch_start")]
+            eps_, cur = [], None
+            for n_ in tl:
+                if n_ == "CallbackList.on_epoch_start":
+                    cur = []
+                    eps_.append(cur)
+                elif cur is not None:
+                    cur.append(n_)
+            # every epoch followed by another one ran to its end (a stop request ends the run)
+            for k_, ev in enumerate(eps_):
+                full = k_ + 1 < len(eps_)
+                nsch = len(ev)
+                ck.check(nsch == 1 if full else nsch <= 1, "C06.R4", "continued run: scheduler advanced exactly once in epoch %d [%s]" % (3 + k_, path_tag(p)), fsite,
+                         "with starting_epoch=3, scheduler.step() runs %d times in epoch %d (the scheduler built by this fit starts at its own step 0 whatever the epoch numbering)" % (nsch, 3 + k_))
     # ------------------------------------------------------------------ R3 pairing and optimizer construction (effect facet)
     for cls in STATES:
         inst = "fit/" + cls
@@ -302,6 +329,12 @@ def run(ck):
                 it = p.interp
                 off = T.ZERO
                 vec = T.sym("vec")
+                lost_ = [o for o in getattr(it, "opaque_log", []) if ("vector_to_grads" in o[3] or "gradients_utils" in o[3]) and not str(o[0]).startswith("torch.")]
+                if lost_ and not any(isinstance(q.obj.grad, VTens) for _n, q in module_params(it, p.value)):
+                    # no gradient assignment was followed, and the parameters / the vector pass through a call the analyser has no
+                    # model of: what is assigned is not known
+                    ck.undecided("C06.R5", inst + ":segments", vf.site(), "the parameters are walked through %s, which the analyser does not model" % (lost_[-1][0],))
+                    continue
                 for n, q in module_params(it, p.value):
                     numel = dim_size(("flat", tuple(q.shape))) if len(q.shape) > 1 else dim_size(q.shape[0])
                     g = q.obj.grad
@@ -312,7 +345,7 @@ def run(ck):
                     else:
                         ck.check(False if gt is not None and "vec" in gt.syms() else None, "C06.R5", "%s:%s slice" % (inst, n), vf.site(),
                                  ".grad of %s is %r; expected vec[%r : %r] reshaped to the parameter's shape" % (n, gt, off, off + numel))
-                    ck.check(isinstance(g, VTens) and g.shape == q.shape, "C06.R5", "%s:%s shape" % (inst, n), vf.site(), ".grad of %s has shape %s, parameter has %s" % (n, getattr(g, "shape", None), q.shape))
+                    ck.check(shape_is(g, q.shape) if isinstance(g, (VTens, VUnknown)) else False, "C06.R5", "%s:%s shape" % (inst, n), vf.site(), ".grad of %s has shape %s, parameter has %s" % (n, getattr(g, "shape", None), q.shape))
                     off = off + numel
     ck.require_min("C06.R1", 40)
     ck.require_min("C06.R2", 7)
